@@ -10,7 +10,7 @@ from mc.ref import formula as R
 
 PROP = 'C14'
 RULE = ('complete products: all key columns of length 1..4 over {10,20,30} and over {a,b,c} (ascending, unsorted, duplicates) x '
-        'lookup values {5,10,15,20,25,30,35} / {a,b,c,d} x VLOOKUP (table widths 1..3, every result column, range_lookup '
+        'lookup values {5,10.0,15,20,25.5,30,35} / {a,b,c,d} x VLOOKUP (table widths 1..3, every result column, range_lookup '
         '0/1/omitted/FALSE/TRUE) x MATCH (0/1/omitted) x XMATCH (match_mode omitted/0 x search_mode omitted/1/-1) x '
         'INDEX(values, MATCH(k, keys, 0)), keys and lookup value as overrides; columns of length <= 3 also as workbook constants '
         'with the lookup value as a literal; INDEX over areas 1x1,1x3,3x1,2x3,3x3 and a two-area form x r,c in -1..n+1 (c also '
@@ -26,7 +26,7 @@ NA = R.Err('NA')
 REF = R.Err('REF')
 ANYERR = R.Err('ANY')
 
-NUM_KEYS, NUM_LOOK = [10, 20, 30], [5, 10, 15, 20, 25, 30, 35]
+NUM_KEYS, NUM_LOOK = [10, 20.0, 30], [5, 10.0, 15, 20, 25.5, 30, 35]   # ints and floats are one kind of number
 TXT_KEYS, TXT_LOOK = ['a', 'b', 'c'], ['a', 'b', 'c', 'd']
 
 
